@@ -81,9 +81,9 @@ func init() {
 			{pos("c0", []Label{u(1), u(1)}, []Label{u(0)})},
 			{pos("c0", []Label{u(1)}, []Label{u(0), u(0)})},
 			{pos("c0", []Label{u(2), u(2)}, []Label{u(0), u(1)})},
-			{pos("c0", []Label{u(1)}, []Label{u(0)}), pos("c1", []Label{u(1)}, []Label{u(0)})},         // duplicate type
-			{pos("c0", []Label{u(0)}, []Label{u(2)})},                                                 // the 4th target's own type
-			{pos("c0", []Label{u(0), u(0)}, nil)},                                                     // the 1st target's own type, no outputs
+			{pos("c0", []Label{u(1)}, []Label{u(0)}), pos("c1", []Label{u(1)}, []Label{u(0)})}, // duplicate type
+			{pos("c0", []Label{u(0)}, []Label{u(2)})},                                          // the 4th target's own type
+			{pos("c0", []Label{u(0), u(0)}, nil)},                                              // the 1st target's own type, no outputs
 			{pos("c0", []Label{u(1), u(1)}, []Label{u(0)}), pos("c1", []Label{u(2)}, []Label{u(1)})},
 			{pos("c0", []Label{u(2)}, []Label{u(0), u(1), u(0)})},
 		}
@@ -173,6 +173,15 @@ func init() {
 				for _, src := range srcs {
 					menu = append(menu, FuncSpec{In: src, Out: []Label{p}, InForm: formFor(src), OutForm: formFor([]Label{p})})
 				}
+				// a value of the parameter's type under the *other* kind of label can feed it
+				// too: a named value for a type-only parameter, a type-only value for a named one
+				alt := Label{"c", p.T, p.Sub}
+				if p.Name != "" {
+					alt = Label{"", p.T, p.Sub}
+				}
+				for _, src := range [][]Label{nil, {{"", other, ""}}, {{"a", other, ""}}} {
+					menu = append(menu, FuncSpec{In: src, Out: []Label{alt}, InForm: formFor(src), OutForm: formFor([]Label{alt})})
+				}
 			}
 			for _, ex := range exactSets {
 				if !inputsDistinct(ex) {
@@ -222,11 +231,16 @@ func init() {
 				for pos := 0; pos <= n; pos++ {
 					s := b
 					s.Malformed, s.MalPos = kind, pos
-					emit(s)
-					for _, mode := range []string{"convert", "redefine"} {
+					if size != 1 {
+						emit(s)
+					}
+					for _, mode := range []string{"convdiff", "redefine"} {
 						if len(b.Target.In) == 1 && b.Target.In[0].Name == "" && b.Target.In[0].Sub == "" || mode == "redefine" {
 							s2 := s
 							s2.Mode = mode
+							if size == 1 && mode != "convdiff" {
+								continue // size 1: only the Convert-differential scenarios (C10)
+							}
 							emit(s2)
 						}
 					}
